@@ -3,6 +3,7 @@ Property theorems for PacMan (R model: the ghost policy is a draw `d`, every the
 draws).  Proofs in Env/PacMan/Lemmas.lean.
 -/
 import JumanjiModel.Env.PacMan.Lemmas
+import JumanjiModel.Env.PacMan.BoundsLemmas
 open Jm PacMan
 
 namespace Props.C04
@@ -72,3 +73,46 @@ namespace Props.C12
 theorem pacman_obs_faithful (tl : Int) (s : State) (a : Int) (d : Draw) :
     (step tl s a d).2.obs = observe (step tl s a d).1 := PacMan.obs_faithful tl s a d
 end Props.C12
+
+namespace Props.C01
+/-- a 3 × 4 maze (3 rows = `x_size`, 4 columns = `y_size`) with the player on its last row -/
+def pacmanBEx : State :=
+  { grid := [[0, 0, 0, 0], [0, 1, 1, 0], [0, 1, 1, 1]], pellets := 1, frightened := -2, pelletLocs := [(1, 1), (0, 0)],
+    powerUps := [(0, 0)], player := (2, 3), ghosts := [(1, 1), (2, 1), (1, 2), (2, 2)],
+    initGhosts := [(1, 1), (1, 1), (1, 1), (1, 1)], oldGhosts := [(1, 1), (2, 1), (1, 2), (2, 2)],
+    ghostInitSteps := [0, 0, 0, 0], ghostActions := [1, 1, 1, 1], lastDirection := 0, dead := false,
+    ghostStarts := [0, 0, 0, 0], stepCount := 2, ghostEaten := [true, true, true, true], score := 10 }
+def pacmanBCfg : BCfg := { xSize := 3, ySize := 4, timeLimit := 5 }
+
+/-- the reset observation (`restart(observe g)` of the generator's state `g`) has every leaf inside the interval
+`obsBounds cfg` lists for it.  Hypothesis: `g` satisfies the invariant `BoundsInv` (maze of the configured
+extents with entries 0/1, player / ghosts / pellets / power-ups inside it, timer in `[−step_count, 30]`,
+score ≥ 0) — see `pacman_boundsInv_of_consistent`. -/
+theorem pac_man_reset_obs_in_bounds (cfg : BCfg) (g : State) (hi : BoundsInv cfg g)
+    (h1 : g.stepCount ≤ cfg.timeLimit) : ObsInBounds cfg (PacMan.reset g).2.obs :=
+  PacMan.reset_obs_in_bounds cfg g hi h1
+
+/-- every step of a running episode (`step_count < time_limit`) from a state satisfying the invariant, for
+EVERY action value and every admissible ghost draw (each ghost stays or moves to a walkable neighbour),
+emits an observation inside `obsBounds cfg`, including the terminal step -/
+theorem pac_man_step_obs_in_bounds (cfg : BCfg) (s : State) (a : Int) (d : Draw) (hi : BoundsInv cfg s)
+    (hd : validGhostDraw s d = true) (h1 : s.stepCount < cfg.timeLimit) :
+    ObsInBounds cfg (step cfg.timeLimit s a d).2.obs := PacMan.step_obs_in_bounds cfg s a d hi hd h1
+
+/-- the invariant is preserved by every step (any action, any admissible ghost draw), so the bounds hold
+along whole episodes -/
+theorem pacman_step_boundsInv (cfg : BCfg) (tl : Int) (s : State) (a : Int) (d : Draw) (hi : BoundsInv cfg s)
+    (hd : validGhostDraw s d = true) : BoundsInv cfg (step tl s a d).1 :=
+  PacMan.step_boundsInv cfg tl s a d hi hd
+
+/-- the invariant follows from the consistency predicate of C07 on a 0/1 maze of the configured extents -/
+theorem pacman_boundsInv_of_consistent (cfg : BCfg) (s : State) (hC : Consistent s) (hbin : BinaryCells s.grid)
+    (hx : xSize s.grid = cfg.xSize) (hy : ySize s.grid = cfg.ySize)
+    (hf : -s.stepCount ≤ s.frightened ∧ s.frightened ≤ 30) (hsc : 0 ≤ s.score) (hst : 0 ≤ s.stepCount) :
+    BoundsInv cfg s := PacMan.boundsInv_of_consistent cfg s hC hbin hx hy hf hsc hst
+
+example : BoundsInv pacmanBCfg pacmanBEx ∧ Consistent pacmanBEx := by decide
+/-- the bound of `player_locations.x` (the row) is attained: `x = x_size − 1`.  (The original tree declared
+`x ≤ y_size − 1`, `y ≤ x_size − 1` — maxima swapped; on the default 31 × 28 maze the player reaches row 28 > 27.) -/
+example : (observe pacmanBEx).player.1 = (pacmanBCfg.xSize : Int) - 1 := by decide
+end Props.C01
